@@ -253,6 +253,7 @@ def run(ctx) -> None:
   r2_params(ctx)
   r3_chain(ctx)
   r3_seed_not_folded(ctx)
+  r3_fresh_experimenter_per_state(ctx)
   r4_sets(ctx)
   r6_no_process_state(ctx)
 
@@ -408,9 +409,47 @@ def r3_seed_not_folded(ctx) -> None:
             'different seeds (e.g. (repeat << 32) | base) produce the identical run', construct='seed-folded', func=bad[0][0].qualname if bad else None)
 
 
+def r3_fresh_experimenter_per_state(ctx) -> None:
+  """Every benchmark state gets its own experimenter: a factory that owns an `experimenter_factory` calls it inside __call__
+  (a stateful experimenter - seeded noise - shared by several states makes a run depend on the runs made before it)."""
+  mod = ctx.index.need_module('vizier._src.benchmarks.runners.benchmark_state')
+  n = 0
+  for ci in mod.classes.values():
+    fields = {st.target.id for st in ci.node.body if isinstance(st, ast.AnnAssign) and isinstance(st.target, ast.Name)}
+    if 'experimenter_factory' not in fields:
+      continue
+    call = ci.methods.get('__call__')
+    if call is None:
+      continue
+    n += 1
+    per_call = any((dotted(c.func) or '') == 'self.experimenter_factory' for c in flow.calls_in(call.node))
+    elsewhere = [c for x in ast.walk(ci.node) if x is not call.node for c in ([x] if isinstance(x, ast.Call) else [])
+                 if (dotted(c.func) or '') == 'self.experimenter_factory' and not any(a is call.node for a in ancestors(c))]
+    ctx.check(per_call and not elsewhere, 'R3', f'{ci.name}: a new experimenter for every state', call.node,
+              'self.experimenter_factory() is called in __call__ (and nowhere else)',
+              f'{ci.name} builds its experimenter ' + ('outside __call__' if elsewhere else 'not per state') +
+              ': all states of one factory share one experimenter object, and a stateful one (seeded noise stream) makes the measurements of a '
+              'seeded run depend on which runs were made before it in the process', construct=f'{ci.name}:shared-experimenter', func=ci.qualname)
+  if n < 1:
+    raise AnalysisError('no benchmark state factory with an experimenter_factory field found')
+
+
 def r4_sets(ctx) -> None:
   n = 0
   bad = []
+  # seeded wrappers: one draw per element of a collection must walk the collection in a defined order
+  for f in ('vizier/_src/benchmarks/experimenters/permuting_experimenter.py', 'vizier/_src/benchmarks/experimenters/noisy_experimenter.py',
+            'vizier/_src/benchmarks/experimenters/shifting_experimenter.py'):
+    if not ctx.src.exists(f):
+      continue
+    mi = ctx.index.module_of_file(f)
+    for fi in [m for c in mi.classes.values() for m in c.methods.values()]:
+      for x in ast.walk(fi.node):
+        if isinstance(x, (ast.For, ast.comprehension)):
+          n += 1
+          it = flow.resolve_local(fi.node, x.iter)
+          if isinstance(it, (ast.Set, ast.SetComp)) or (isinstance(it, ast.Call) and dotted(it.func) in ('set', 'frozenset')):
+            bad.append((fi, x))
   for f in FILES[:12]:
     mi = ctx.index.module_of_file(f)
     for fi in [m for c in mi.classes.values() for m in c.methods.values() if m.name in ('suggest', '_suggest_one', 'sample', 'mutate')]:
